@@ -11,9 +11,17 @@ Definition field_required (fs : list (string * bool)) (f : string) : bool :=
 Definition field_absent (fs : list (string * bool)) (f : string) : bool :=
   negb (existsb (fun x => String.eqb (fst x) f) fs).
 
+(* every struct carrying the anchors of a row satisfies the row, and there is one *)
+Definition row_holds (ok : list (string * bool) -> string -> bool) (r : string * list string * list string) : bool :=
+  let '(_, anchors, fields) := r in
+  match structs_with anchors with
+  | [] => false
+  | ss => forallb (fun fs => forallb (ok fs) fields) ss
+  end.
+
 Definition tags_check : bool :=
-  forallb (fun r => forallb (field_required (struct_fields (fst r))) (snd r)) JDocShape.required_fields
-  && forallb (fun r => forallb (field_absent (struct_fields (fst r))) (snd r)) JDocShape.forbidden_fields.
+  forallb (row_holds field_required) JDocShape.required_fields
+  && forallb (row_holds field_absent) JDocShape.forbidden_fields.
 
 Lemma tags_check_ok : tags_check = true.
 Proof. vm_compute. reflexivity. Qed.
